@@ -16,8 +16,9 @@ PROP = {
         {"name": "session", "quick": 300, "thorough": 8000},
         {"name": "handler", "quick": 120, "thorough": 3000},
         {"name": "sess-impersonate", "quick": 30, "thorough": 2000, "shards": 8},
+        {"name": "twoparty", "quick": 100, "thorough": 3000},
     ],
-    "propfields": {"session": ["same", "ok"], "handler": ["can", "term", "closed"], "sess-impersonate": ["ok"]},
+    "propfields": {"session": ["same", "ok"], "handler": ["can", "term", "closed"], "sess-impersonate": ["ok"], "twoparty": ["can", "term", "closed"]},
     "level_text": "Proof: the items written into the session hash determine every session parameter (sessionItems_injective: session id incl. absent vs present, protocol id, group, participant list with adversarial boundaries, threshold, auxiliary items), equal SSIDs imply equal parameters or an explicit hash collision (ssid_injective), the handler refuses every message whose tag / protocol / recipient / sender / round is foreign and a refused message is a no-op, and - by an invariant over ALL call histories - no message ever emitted by a session is accepted at any point of a session with another tag or protocol id (cross_session_noop). Tied to the code by the regenerated NewSession layout, CanAccept guards, protocol-id table (pairwise distinct, kernel-checked) and CMP aux-info lists, by bit-exact SSID differentials on generated / adversarially related parameter pairs, and by a catalogue of sessions created through the real start functions of all protocols whose tags must be pairwise different.",
-    "level_note": "The binding of proofs and commitments to the per-party hash context is covered structurally (hashForID_separates + C10 challenge coverage); replays of a proof-carrying broadcast under another sender's name in the real protocols are run by suite sess-impersonate (FROST keygen round 2, the only shipped broadcast whose proof could verify for another party: it must be refused in the round it arrives in) and by C03's tamper catalogue; sampled, not proved. CMP config bytes inside the SSID are treated as one opaque item (its WriteTo layout is a regenerated fact).",
+    "level_note": "Suite twoparty (foreign-session messages and abort notices at the two-party handler) runs under this property too. The binding of proofs and commitments to the per-party hash context is covered structurally (hashForID_separates + C10 challenge coverage); replays of a proof-carrying broadcast under another sender's name in the real protocols are run by suite sess-impersonate (FROST keygen round 2, the only shipped broadcast whose proof could verify for another party: it must be refused in the round it arrives in) and by C03's tamper catalogue; sampled, not proved. CMP config bytes inside the SSID are treated as one opaque item (its WriteTo layout is a regenerated fact).",
 }
